@@ -135,6 +135,17 @@ Theorem C14_derive_terminates :
 Proof. exact derive_terminates. Qed.
 Print Assumptions C14_derive_terminates.
 
+(* #[derive(Ord)] needs a PartialOrd impl on the same item (rustc E0277 otherwise): whoever gets Hash/Eq/Ord from the second
+   plugin instance got PartialOrd from the first -- every kind the PartialOrd predicate rejects the Hash/Eq/Ord predicate rejects too
+   (REGENERATED tables), and an item is refused only if it contains a rejected kind *)
+Theorem C14_derive_ord_implies_partialord :
+  forall g order mp mh,
+    NoDup (map fst g) -> closed_b g = true -> ws_complete_b g = true ->
+    run PO g order = Done mp -> run HEO g order = Done mh ->
+    forall d, In d order -> derives mh d = true -> derives mp d = true.
+Proof. exact derive_ord_implies_partialord. Qed.
+Print Assumptions C14_derive_ord_implies_partialord.
+
 (* finding F-14k: map<i32, double> with pilota.rust_type = "btree" gets Hash/Eq/Ord *)
 Theorem C14_derive_btree_refuted :
   exists m, run HEO btree_double [0] = Done m /\
